@@ -701,7 +701,7 @@ fn custom_parse_obs<const PT: u8, const MIN: usize>(input: &[u8]) -> Kvs {
 
 // ------------------------------------------------------------------ parse entries
 
-fn run_compound(input: &[u8]) -> Kvs {
+pub fn run_compound(input: &[u8]) -> Kvs {
     let mut out: Kvs = vec![];
     let r = guard(|| Compound::parse(input));
     match r {
@@ -767,7 +767,7 @@ fn run_compound(input: &[u8]) -> Kvs {
     out
 }
 
-fn run_packet(input: &[u8]) -> Kvs {
+pub fn run_packet(input: &[u8]) -> Kvs {
     let mut out: Kvs = vec![];
     match guard(|| Packet::parse(input)) {
         Err(()) => out.push(("r".to_string(), S("PANIC"))),
@@ -1312,9 +1312,10 @@ fn run_build(bufspec: &str, m: &Member) -> Result<Kvs, String> {
         ),
         ("writes".to_string(), obs_writes(&bufs, |b| w.write(b))),
     ];
-    // round trip through an exact-size zeroed buffer
+    // round trip through an exact-size buffer prefilled like the first buffer of the case (zero if none)
     if let Ok(Ok(n)) = size {
-        let mut img = vec![0u8; n];
+        let fill = bufs.first().map(|b| b.1).unwrap_or(0);
+        let mut img = vec![fill; n];
         if let Ok(Ok(wn)) = guard(|| w.write(&mut img)) {
             let img = &img[..wn.min(n)];
             let rt = match m {
